@@ -25,6 +25,7 @@ type Env struct {
 	alloc      string
 	depth      int
 	iterSeen   func() (string, bool)
+	inOld      bool
 }
 
 func (x *Exec) topEnv(st *State) *Env {
@@ -63,12 +64,35 @@ func (e *Env) lookup(name string) (Val, bool) {
 	return nil, false
 }
 
+// factState returns a scratch state that collects heap well-formedness facts (range of
+// loaded integers, "pointers stored in the heap designate objects allocated earlier")
+// for loads of closed terms; commit() adds them to the real path condition.
+func (e *Env) factState() (*State, func()) {
+	if e.st == nil || len(e.qv) > 0 {
+		return nil, func() {}
+	}
+	w := e.st.alloc
+	if e.inOld {
+		w = e.alloc
+	}
+	tmp := &State{alloc: w}
+	return tmp, func() {
+		for _, f := range tmp.pc {
+			e.st.assume(f)
+		}
+	}
+}
+
 func (e *Env) resolveNameVal(v Val, h Heap) Val {
 	switch a := v.(type) {
 	case nameAddr:
-		return e.x.loadPtr(nil, h, a.ref, a.ty)
+		fs, commit := e.factState()
+		defer commit()
+		return e.x.loadPtr(fs, h, a.ref, a.ty)
 	case AD:
-		return e.x.loadFrom(nil, h, a, deref(a.Ty))
+		fs, commit := e.factState()
+		defer commit()
+		return e.x.loadFrom(fs, h, a, deref(a.Ty))
 	}
 	return v
 }
@@ -133,7 +157,9 @@ func (e *Env) eval(ex Expr) Val {
 			if !ok || !isPointer(tv.Ty) {
 				e.errf("deref of non-pointer")
 			}
-			return x.loadPtr(nil, e.cur, tv.T, deref(tv.Ty))
+			fs, commit := e.factState()
+			defer commit()
+			return x.loadPtr(fs, e.cur, tv.T, deref(tv.Ty))
 		case "&":
 			return e.addrOf(ex.X)
 		}
@@ -284,7 +310,9 @@ func (e *Env) pkgObject(p *types.Package, name string) (Val, bool) {
 			// denote the object itself (auto-deref on selection)
 			return TV{ref, types.NewPointer(o.Type())}, true
 		}
-		return x.loadPtr(nil, e.cur, ref, o.Type()), true
+		fs, commit := e.factState()
+		defer commit()
+		return x.loadPtr(fs, e.cur, ref, o.Type()), true
 	}
 	return nil, false
 }
@@ -333,7 +361,9 @@ func (e *Env) selectField(base Val, f string) Val {
 					// stay at object level: pointer to the embedded struct
 					return TV{x.subObj(structT, f, b.T), types.NewPointer(fld.Type())}
 				}
-				return x.loadField(nil, e.cur, structT, fld, b.T)
+				fs, commit := e.factState()
+				defer commit()
+				return x.loadField(fs, e.cur, structT, fld, b.T)
 			}
 		}
 		e.errf("no field %s in %s", f, structT)
@@ -356,7 +386,9 @@ func (e *Env) index(base, idx Val) Val {
 		if isStruct(elem) {
 			return TV{x.elemObj(elem, b.B, add(b.O, i)), types.NewPointer(elem)}
 		}
-		return x.loadElem(nil, e.cur, elem, b.B, add(b.O, i))
+		fs, commit := e.factState()
+		defer commit()
+		return x.loadElem(fs, e.cur, elem, b.B, add(b.O, i))
 	case SQ:
 		return TV{sel(b.A, add(b.O, i)), b.Elem.Go}
 	case AV:
@@ -369,7 +401,9 @@ func (e *Env) index(base, idx Val) Val {
 			if isStruct(mm.Elem()) {
 				return TV{x.melemObj(b.Ty, b.T, i), types.NewPointer(mm.Elem())}
 			}
-			v, _ := x.mapLoad(nil, e.cur, b.Ty, b.T, i)
+			fs, commit := e.factState()
+			defer commit()
+			v, _ := x.mapLoad(fs, e.cur, b.Ty, b.T, i)
 			return v
 		}
 		if isString(b.Ty) {
@@ -513,6 +547,7 @@ func (e *Env) call(c *CallE) Val {
 	case "old":
 		ne := *e
 		ne.cur = e.old
+		ne.inOld = true
 		if e.entryNames != nil {
 			// parameter names denote entry values inside old()
 			ne.names = mergeNames(e.names, e.entryNames)
